@@ -164,7 +164,14 @@ def gen_cases(ctx, n, prop):
             c["script"] = [["park", pt, ch, 0 if pt == "try_recv" else r.randint(0, 3)], ["wait_parked"], ["pause"], ["release"],
                            ["sleep_ms", 30], ["progress"], ["sleep_ms", 20], ["progress"], ["resume"], ["wait_until_done"]]
             c["park"] = [pt, ch]
-            if r.random() < 0.5:
+            if cid == 0:
+                # one long pause: chains must stay blocked for as long as the pause lasts
+                c["script"] = [["park", pt, ch, 0 if pt == "try_recv" else r.randint(0, 3)], ["wait_parked"], ["pause"], ["release"],
+                               ["sleep_ms", 200], ["progress"], ["sleep_ms", 6500 if ctx.tier == "quick" else 13000], ["progress"],
+                               ["resume"], ["wait_until_done"]]
+                c["num_draws"] = 400
+                c["watchdog_s"] = 40
+            elif r.random() < 0.5:
                 # repeated pause while the chains are already blocked, then a late resume
                 c["script"] = [["park", pt, ch, 0 if pt == "try_recv" else r.randint(0, 3)], ["wait_parked"], ["pause"], ["release"],
                                ["sleep_ms", 20], ["pause"], ["sleep_ms", 30], ["progress"], ["pause"], ["sleep_ms", 30], ["progress"],
@@ -376,11 +383,14 @@ def run(ctx):
             ref_cases = ref_cases[: max(10, len(ref_cases) // 3)]
         refs = run_cases(ref_cases, workers=6)
     todo = [c for c in cases if c["id"] not in crashed]
-    exprs = [model_expr(c, outs[c["id"]]) for c in todo]
+    # a runaway history (a chain that never stops recording) cannot be replayed in reasonable time:
+    # the implementation-side audit below judges it, the tie skips it
+    oversize = {c["id"] for c in todo if len(outs[c["id"]]["events"]) > 8000}
+    exprs = [model_expr(c, outs[c["id"]]) if c["id"] not in oversize else "[[-2%Z]]" for c in todo]
     vals, err = coq_eval_shards(prop + "_proto", PRELUDE, exprs, shard_size=max(1, (len(exprs) + 15) // 16))
     ctx.oblig("model-eval", err is None, err or "")
     if err:
-        return
+        vals = [None] * len(todo)
     ndiff = 0
     nbad = 0
     stats = {"events": 0, "scripts": {}, "outcomes": {}, "chains": {}, "cores": {}, "faults": {}, "parked": 0}
@@ -404,7 +414,14 @@ def run(ctx):
         if len(ctx.samples) < 2:
             ctx.samples.append({"case": c, "events_head": o["events"][:25], "outcome": kind, "model_final": m})
         diffs = []
-        if m and m[0] and m[0][0] == -1:
+        if c["id"] in oversize:
+            total_ = c["num_tune"] + c["num_draws"]
+            bad_over = "the run produced %d schedule events for %d chains of %d draws: a chain does not stop recording" % (len(o["events"]), c["num_chains"], total_)
+        else:
+            bad_over = None
+        if m is None or c["id"] in oversize:
+            pass
+        elif m and m[0] and m[0][0] == -1:
             k = m[0][1]
             diffs.append("event #%d %s is not enabled in the model (history prefix accepted)" % (k, o["events"][k]))
         elif m and m[0] and m[0][0] == -2:
@@ -416,6 +433,8 @@ def run(ctx):
                 if mrec != lens:
                     diffs.append("model recorded counts %s, finalized trace lengths %s" % (mrec, lens))
         bad = audit(c, o, prop, refs.get(c["id"]))
+        if bad_over:
+            bad.insert(0, bad_over)
         if prop == "C12":
             bad += pause_audit(c, o)
         known = [b for b in bad if isinstance(b, tuple)]
